@@ -29,4 +29,50 @@ if ! cargo build --release --bin vcheck >"$BUILD_LOG" 2>&1; then
   grep -E "^error" -A6 "$BUILD_LOG" | head -40
   exit 2
 fi
-exec "$ROOT/harness/target/release/vcheck" "$ID" "$TIER" "${ARGS[@]}"
+"$ROOT/harness/target/release/vcheck" "$ID" "$TIER" "${ARGS[@]}"
+rc=$?
+# thorough tier: coverage-guided campaigns (libFuzzer) with the same oracles, for the byte-level properties
+if [ "$TIER" = "thorough" ] && [ $rc -eq 0 ] && [ ${#ARGS[@]} -eq 0 ]; then
+  case "$ID" in
+    C01) TARGETS="tx:2000000:2048";;
+    C02) TARGETS="script:2000000:1024";;
+    C09) TARGETS="decoders:2000000:1024 tx:1000000:2048 script:1000000:1024 asm:1000000:512";;
+    C14) TARGETS="interp:400000:256";;
+    C16) TARGETS="interp:400000:256";;
+    C17) TARGETS="asm:2000000:512";;
+    *) TARGETS="";;
+  esac
+  FUZZ_SUMMARY=""
+  for spec in $TARGETS; do
+    IFS=: read -r T RUNS MAXLEN <<<"$spec"
+    out=$(FUZZ_JOBS=8 "$ROOT/fuzz.sh" "$T" "$RUNS" "$VERIF_SEED" "$MAXLEN" 2>&1); frc=$?
+    echo "$out" | grep -E "^fuzz target|^INCONCLUSIVE"
+    FUZZ_SUMMARY="$FUZZ_SUMMARY$(echo "$out" | grep -E '^fuzz target' | head -1);"
+    if [ $frc -eq 2 ] && [ $rc -eq 0 ]; then rc=2; fi
+    for art in $(echo "$out" | grep '^FUZZ-CRASH ' | cut -d' ' -f2); do
+      rp="$ROOT/evidence/replay/$ID-fuzz-$T-$(basename "$art").json"
+      "$ROOT/harness/target/release/vcheck" --artifact-case "$ID" "$T" "$art" > "$rp"
+      # only a crash that reproduces under this property's own oracle counts for this property
+      if ! "$ROOT/harness/target/release/vcheck" "$ID" quick --replay "$rp" >/dev/null 2>&1; then
+        "$ROOT/harness/target/release/vcheck" "$ID" quick --replay "$rp" | grep -v '^VIOLATION'
+        echo "VIOLATION property=$ID replay=$rp"
+        rc=1
+      fi
+    done
+  done
+  if [ -n "$FUZZ_SUMMARY" ]; then
+    python3 - "$ROOT/evidence/$ID.json" "$FUZZ_SUMMARY" <<'PY'
+import json, sys
+p, summary = sys.argv[1], sys.argv[2]
+try:
+    e = json.load(open(p))
+    runs = [s for s in summary.split(';') if s]
+    e['coverage']['libfuzzer_campaigns'] = runs
+    e['coverage']['libfuzzer_executions'] = sum(int(x.split('executions=')[1].split()[0]) for x in runs if 'executions=' in x)
+    json.dump(e, open(p, 'w'), indent=1)
+except Exception as ex:
+    print('could not record fuzz summary:', ex)
+PY
+  fi
+fi
+exit $rc
